@@ -243,6 +243,13 @@ def silent : List String → Option String
     let r ← parseInt? r
     let v ← parseInt? v
     pure (if !(vp Hp) then "err value" else "ok " ++ rBool (pedersenVerify O Hp r v C))
+  | ["psbt.sp_output_keys", mode, keys, ops, recips] => do
+    let keys ← listOf? keyFlag? keys
+    let ops ← bytesList? ops
+    let recips ← listOf? recip? recips
+    let g ← (if mode == "global" then some true else if mode == "input" then some false else none)
+    pure (if recips.any (fun r => !(vp r.1) || !(vp r.2)) then "err value"
+      else rend rList (psbtOutputKeys O Hh g keys ops recips))
   | ["sp.prv_key_from_tweak", b, t] => do
     pure (rend toString (prvKeyFromTweak O (← parseInt? b) (← parseInt? t)))
   | _ => none
@@ -264,7 +271,7 @@ def handle (toks : List String) : String :=
           if t.startsWith "musig." || t.startsWith "bip340." then (C16Drv.musig toks).getD "bad-op"
           else if t.startsWith "dh." || t.startsWith "kdf." || t.startsWith "dleq." then
             (C16Drv.twoParty toks).getD "bad-op"
-          else if t.startsWith "sp." || t.startsWith "pedersen." then (C16Drv.silent toks).getD "bad-op"
+          else if t.startsWith "sp." || t.startsWith "pedersen." || t.startsWith "psbt." then (C16Drv.silent toks).getD "bad-op"
           else "bad-op"
         | [] => "bad-op"
 
